@@ -185,7 +185,7 @@ def run_case(case: dict) -> dict:
     rnodes, lnodes = {}, {}
     for n in nodes:
         rn = canopen.RemoteNode(n, od)
-        rn.sdo.RESPONSE_TIMEOUT = 5.0
+        rn.sdo.RESPONSE_TIMEOUT = 15.0
         net1.add_node(rn)
         rnodes[n] = rn
         ln = canopen.LocalNode(n, od)
